@@ -50,6 +50,13 @@ BASE_TRUSTED = [
 ]
 
 
+def _limits():
+    # a runaway proof search must die instead of eating the machine (a coqc once reached 58 GB)
+    import resource
+    gb = int(os.environ.get('VERIF_COQ_MEM_GB', '10'))
+    resource.setrlimit(resource.RLIMIT_AS, (gb << 30, gb << 30))
+
+
 class MachineryError(Exception):
     '''The checking machinery itself failed (exit 2, no VIOLATION line).'''
 
@@ -117,7 +124,7 @@ def make_targets(targets, timeout=1500):
     gen_coqproject()
     cmd = ['make', '-k', f'-j{NCPU}'] + targets
     try:
-        p = subprocess.run(cmd, cwd=COQ, stdout=subprocess.PIPE, stderr=subprocess.STDOUT, text=True, timeout=timeout)
+        p = subprocess.run(cmd, cwd=COQ, stdout=subprocess.PIPE, stderr=subprocess.STDOUT, text=True, timeout=timeout, preexec_fn=_limits)
     except subprocess.TimeoutExpired as e:
         return False, f'make timed out after {timeout}s\n' + (e.stdout or '')
     return p.returncode == 0, p.stdout
@@ -126,7 +133,7 @@ def make_targets(targets, timeout=1500):
 def coqc_file(relpath, timeout=600):
     cmd = ['coqc'] + COQ_FLAGS + [relpath]
     try:
-        p = subprocess.run(cmd, cwd=COQ, stdout=subprocess.PIPE, stderr=subprocess.STDOUT, text=True, timeout=timeout)
+        p = subprocess.run(cmd, cwd=COQ, stdout=subprocess.PIPE, stderr=subprocess.STDOUT, text=True, timeout=timeout, preexec_fn=_limits)
     except subprocess.TimeoutExpired:
         return 124, f'coqc {relpath} timed out'
     return p.returncode, p.stdout
